@@ -34,7 +34,13 @@ RULE = ('interp (check): d in 1..3, axis lengths 1..6, uniform / non-uniform dya
         'in a row -- direct call at an integer point (integer result), direct call at a float point, '
         'space.element / mesh out= / point array on float64/float32 spaces, and a parametrised callable sampled '
         'with real c, then c=a+bj on a complex space, then real again -- every step compared with point-wise '
-        'evaluation. Non-trivial = values not all equal; distinct by the full input tuple.')
+        'evaluation. Every out= array (interpolators, sampling entry points per flavour, vector-valued, histories, '
+        'Resampling, linear_deform) is NaN-prefilled and C / F / transposed / strided / negative-stride. 25% of the '
+        'interp cases use almost-uniform nodes (relative perturbation 1e-4, 1e-6, 1e-9) and/or grids scaled by 1e-3, '
+        '1e-6, 1e-9, 1e6 with points at nodes, next to midpoints (exact ties excluded) and next to cell edges. shapes '
+        '(hcheck): every factory called with np.zeros(shape) for all shapes of rank 0-2 with entries 0..4 (and some '
+        'rank 3) on 1-3 dimensional grids -> scalar / result shape / ValueError. Non-trivial = values not all equal; '
+        'distinct by the full input tuple.')
 ASSUMPTIONS = [
     'exact arithmetic: coordinates/values are small integers or dyadic rationals so float operations are exact '
     '(non-dyadic spacings compared with tolerance 1e-12 and without tie points); rounding, overflow, NaN inputs are '
@@ -44,8 +50,6 @@ ASSUMPTIONS = [
     '(binary_search_is_prefix_count)',
     'NumPy fancy indexing / broadcasting of the per-axis weight arrays is modelled as the tensor product over the mesh '
     '(validated by the correspondence on mesh inputs; proved equal to point-wise evaluation in Coq)',
-    'the Q instance executed by vm_compute and the R instance used in proofs are the same polymorphic term (Q2R '
-    'homomorphism not proved here)',
     'the callable-wrapping machinery (sampling_function, _make_dual_use_func, vectorize) is Python dispatch: the '
     'model only states the values the callable denotes at the grid points (validated, not proved)',
     'complex values: real and imaginary parts are interpolated separately (justified by '
@@ -53,7 +57,9 @@ ASSUMPTIONS = [
 ]
 TRUSTED = ['translate/interp_weights.py (Python ast -> Gallina, fail-closed): _compute_nearest/linear_weights_edge, the '
            'scheme dispatch, index clamping + normalised distance of _find_indices, np.where pick of '
-           '_NearestInterpolator._evaluate',
+           '_NearestInterpolator._evaluate, which evaluator each factory instantiates (per_axis all-nearest dispatch, '
+           'linear scheme), the ordered out checks of _Interpolator.__call__, is_valid_input_array, '
+           'out_shape_from_array and the array branch of _check_interp_input',
            'C15/Model.v hand-written part: searchsorted as prefix count, NumPy negative-index wrap, C-order flat '
            'indexing, the 2^d corner loop, calling conventions, collocation (tied by the correspondence)',
            'C15/Call.v: which calls are rejected / non-finite (tied by the correspondence, error classes as enum)',
@@ -114,6 +120,52 @@ def gen_coord(rng, c, ties=True):
     return c[-1] + h1 * rng.choice([1.5, 2.0, 3.25]), k
 
 
+NEAR_KINDS = [(1e-4, 1.0), (1e-6, 1.0), (1e-9, 1.0), (None, 1e-3), (None, 1e-6), (None, 1e-9), (None, 1e6),
+              (1e-6, 1e-6), (1e-4, 1e-9), (1e-9, 1e6), (1e-6, 1e-3)]
+
+
+def gen_cvec_near(rng, n, eps, scale):
+    """Coordinate vectors that an implementation must NOT mistake for uniform ones: 'almost uniform' (cell
+    sizes h*(1 + eps*u), u in [-1, 1], eps in 1e-4 .. 1e-9) and/or on a small / large length scale (clearly
+    non-uniform cells times 1e-3 .. 1e-9 or 1e+6)."""
+    start = rng.randint(-8, 8) * 0.25 * scale
+    h = rng.choice([0.5, 1.0, 2.0]) * scale
+    c = [start]
+    for _ in range(n - 1):
+        if eps is None:
+            c.append(c[-1] + rng.choice([0.5, 1.0, 2.0, 0.25]) * scale)
+        else:
+            c.append(c[-1] + h * (1.0 + eps * rng.uniform(-1.0, 1.0)))
+    assert all(a < b for a, b in zip(c, c[1:]))
+    return c
+
+
+def gen_coord_near(rng, c, eps):
+    """Evaluation coordinate for such a vector: a node, next to a cell midpoint (offset far above float
+    rounding but below the perturbation of the nodes; exact ties excluded), next to a cell edge, a generic
+    interior point, or just outside."""
+    n = len(c)
+    if n == 1:
+        return c[0], 'node'
+    delta = 1e-3 if eps is None else eps / 8
+    k = rng.choice(['node', 'near-mid', 'near-mid', 'near-edge', 'inside', 'lo1', 'hi1'])
+    j = rng.randrange(n - 1)
+    hj = c[j + 1] - c[j]
+    sgn = rng.choice([-1.0, 1.0])
+    if k == 'node':
+        return c[rng.randrange(n)], k
+    if k == 'near-mid':
+        return (c[j] + c[j + 1]) / 2 + sgn * delta * hj * rng.choice([1.0, 3.0]), k
+    if k == 'near-edge':
+        jj = rng.randrange(n)
+        return c[jj] + sgn * delta * hj, k
+    if k == 'inside':
+        return c[j] + hj * rng.choice([1, 2, 3, 5, 6, 7, 9, 11, 13, 15]) / 16.0, k
+    if k == 'lo1':
+        return c[0] - (c[1] - c[0]) * rng.choice([0.25, 0.375, 0.75]), k
+    return c[-1] + (c[-1] - c[-2]) * rng.choice([0.25, 0.375, 0.75]), k
+
+
 DTYPES = ['float64', 'float64', 'float64', 'float32', 'complex128', 'int64', 'str']
 
 LAYOUTS = ['C', 'F', 'transposed', 'strided', 'negstride']
@@ -139,31 +191,32 @@ def relayout(f, layout):
         g = np.ascontiguousarray(f)
     assert g.shape == f.shape and g.dtype == f.dtype and bool(np.all(g == f))
     return g
+
+
+def alloc_out(shape, dtype, layout):
+    """A writable array for an out= argument, prefilled with NaN (or a sentinel for integer / string
+    dtypes), in the given memory layout.  The result of an in-place evaluation must not depend on it."""
+    import numpy as np
+    dtype = np.dtype(dtype)
+    fill = 'z' if dtype.kind == 'U' else (-77 if dtype.kind in 'iu' else np.nan)
+    shape = tuple(shape)
+    if layout == 'F':
+        o = np.full(shape, fill, dtype=dtype, order='F')
+    elif layout == 'transposed':
+        o = np.full(shape[::-1], fill, dtype=dtype).transpose()
+    elif layout == 'strided':
+        o = np.full(tuple(2 * n for n in shape), fill, dtype=dtype)[tuple(slice(None, None, 2) for _ in shape)]
+    elif layout == 'negstride':
+        o = np.full(shape, fill, dtype=dtype)[tuple(slice(None, None, -1) for _ in shape)]
+    else:
+        o = np.full(shape, fill, dtype=dtype)
+    assert o.shape == shape and o.flags.writeable
+    return o
 '''
 exec(LAYOUT_SRC)
 
 
-def measure_variants():
-    """Which of the two recorded defects the current code exhibits (model variant switches)."""
-    from odl.discr.discr_utils import per_axis_interpolator, linear_interpolator
-    from odl.discr.grid import sparse_meshgrid
-    with warnings.catch_warnings():
-        warnings.simplefilter('ignore')
-        try:
-            per_axis_interpolator(np.array([1, 2]), [np.array([0.0, 1.0])], 'nearest')(np.array([0.25, 0.5]))
-            int_raises = False
-        except TypeError:
-            int_raises = True
-        try:
-            linear_interpolator(np.arange(4.0).reshape(2, 2), [np.array([0.0, 1.0])] * 2)(
-                sparse_meshgrid([0.5], [0.25, 0.5]))
-            mesh1_raises = False
-        except ValueError:
-            mesh1_raises = True
-    return int_raises, mesh1_raises
-
-
-def run_interp(kind, schemes, cvs, dtype, vals_re, vals_im, conv, pts, mesh, use_out, layout='C'):
+def run_interp(kind, schemes, cvs, dtype, vals_re, vals_im, conv, pts, mesh, use_out, layout='C', out_layout='C'):
     """Run the implementation; returns the Coq term of type outc and a python summary."""
     from odl.discr.discr_utils import nearest_interpolator, linear_interpolator, per_axis_interpolator
     from odl.discr.grid import sparse_meshgrid
@@ -201,12 +254,7 @@ def run_interp(kind, schemes, cvs, dtype, vals_re, vals_im, conv, pts, mesh, use
             oshape = tuple(oshape[:-1]) + (oshape[-1] + 1,)
         if use_out == 'baddtype':
             odt = np.dtype('float32') if f.dtype == np.dtype('float64') else np.dtype('float64')
-        if odt.kind == 'U':
-            kw['out'] = np.full(oshape, 'z', dtype=odt)
-        elif odt.kind == 'i':
-            kw['out'] = np.full(oshape, -77, dtype=odt)
-        else:
-            kw['out'] = np.full(oshape, np.nan, dtype=odt)
+        kw['out'] = alloc_out(oshape, odt, out_layout)
     with warnings.catch_warnings():
         warnings.simplefilter('ignore')
         old = np.seterr(all='ignore')
@@ -239,19 +287,18 @@ def run_interp(kind, schemes, cvs, dtype, vals_re, vals_im, conv, pts, mesh, use
     return 'OVals %s []' % C.qs([float(v) for v in flat.tolist()]), flat.tolist()
 
 
-def case_term(kind, schemes, cvs, dtype, vre, vim, conv, pts, mesh, variants, out, outarg=None):
+def case_term(kind, schemes, cvs, dtype, vre, vim, conv, pts, mesh, out, outarg=None):
     kk = {'nearest': 'KNearest', 'linear': 'KLinear', 'per_axis': 'KPerAxis'}[kind]
     dt = {'float64': 'DFloat', 'float32': 'DFloat', 'complex128': 'DFloat', 'int64': 'DInt', 'str': 'DStr'}[dtype]
     inp = ('IMesh %s' % C.qss(mesh)) if conv == 'mesh' else ('IPoints %s' % C.qss(pts))
     return ('{| k_kind := %s; k_ss := %s; k_cvs := %s; k_dt := %s; k_cplx := %s; k_vre := %s; k_vim := %s; '
-            'k_inp := %s; k_outarg := %s; k_int_raises := %s; k_mesh1_raises := %s; k_out := %s |}'
+            'k_inp := %s; k_outarg := %s; k_out := %s |}'
             % (kk, C.lst([SCH[s] for s in schemes]), C.qss(cvs), dt, C.b(dtype == 'complex128'),
                C.qs(vre), C.qs(vim), inp,
-               'None' if outarg is None else '(Some (%s%%nat, %s))' % (C.nats(outarg[0]), C.b(outarg[1])),
-               C.b(variants[0]), C.b(variants[1]), out))
+               'None' if outarg is None else '(Some (%s%%nat, %s))' % (C.nats(outarg[0]), C.b(outarg[1])), out))
 
 
-def interp_cases(rng, tier, variants):
+def interp_cases(rng, tier):
     cs = C.CaseSet('interp', ['C15.Syntax', 'C15.Model', 'C15.Call', 'C15.Corr'], 'check', 'case')
     n_cases = 700 if tier == 'quick' else 6000
     for it in range(n_cases):
@@ -263,13 +310,22 @@ def interp_cases(rng, tier, variants):
         if d > 1 and rng.random() < 0.6:
             shape = rng.sample(range(2, maxn + 1), d)          # pairwise distinct axis lengths
         layout = 'C' if d == 1 else rng.choice(LAYOUTS)
-        cvs = [gen_cvec(rng, n, dyadic) for n in shape]
+        near = None
+        if dtype != 'float32' and rng.random() < 0.25:
+            near = rng.choice(NEAR_KINDS)              # almost-uniform and/or rescaled coordinate vectors
+            dyadic = False
+            cvs = [gen_cvec_near(rng, n, *near) if n > 1 else [rng.randint(-8, 8) * 0.25 * near[1]] for n in shape]
+        else:
+            cvs = [gen_cvec(rng, n, dyadic) for n in shape]
+
+        def coord(c):
+            return gen_coord_near(rng, c, near[0]) if near else gen_coord(rng, c, dyadic)
         kind = rng.choice(['nearest', 'linear', 'per_axis', 'per_axis'])
-        if dtype in ('int64', 'str') and rng.random() < 0.7:
-            kind = 'nearest'      # the only factory defined for non-floating values
+        if dtype in ('int64', 'str') and rng.random() < 0.4:
+            kind = 'nearest'      # index-based evaluation (also per_axis with all-'nearest') is defined for these
         schemes = [rng.choice(['nearest', 'linear']) for _ in range(d)]
-        if kind == 'per_axis' and rng.random() < 0.15:
-            schemes = [schemes[0]] * d
+        if kind == 'per_axis' and (rng.random() < 0.15 or (dtype in ('int64', 'str') and rng.random() < 0.6)):
+            schemes = [schemes[0] if dtype not in ('int64', 'str') else 'nearest'] * d
         size = int(np.prod(shape))
         if dtype == 'str':
             vre = [float(rng.randint(0, 25)) for _ in range(size)]
@@ -281,18 +337,13 @@ def interp_cases(rng, tier, variants):
         if conv == 'mesh':
             for c in cvs:
                 npt = rng.choice([1, 2, 2, 3, 4])
-                xs = [gen_coord(rng, c, dyadic) for _ in range(npt)]
+                xs = [coord(c) for _ in range(npt)]
                 mesh.append([x for x, _ in xs])
                 branches.append([b for _, b in xs])
-            if d >= 2 and rng.random() < 0.85 and len(mesh[0]) == 1:
-                # most of the time avoid the recorded first-axis-singleton defect
-                x, b_ = gen_coord(rng, cvs[0], dyadic)
-                mesh[0].append(x)
-                branches[0].append(b_)
         else:
             npt = 1 if conv == 'single' else rng.choice([1, 2, 3, 5])
             for _ in range(npt):
-                p = [gen_coord(rng, c, dyadic) for c in cvs]
+                p = [coord(c) for c in cvs]
                 pts.append([x for x, _ in p])
                 branches.append([b for _, b in p])
         use_out = conv != 'single' and rng.random() < 0.25
@@ -306,12 +357,13 @@ def interp_cases(rng, tier, variants):
             if use_out == 'badshape':
                 osh = osh[:-1] + [osh[-1] + 1]
             outarg = (osh, use_out != 'baddtype')
-        out, summ = run_interp(kind, schemes, cvs, dtype, vre, vim, conv, pts, mesh, use_out, layout)
-        term = case_term(kind, schemes, cvs, dtype, vre, vim, conv, pts, mesh, variants, out, outarg)
+        out_layout = rng.choice(LAYOUTS) if use_out else 'C'
+        out, summ = run_interp(kind, schemes, cvs, dtype, vre, vim, conv, pts, mesh, use_out, layout, out_layout)
+        term = case_term(kind, schemes, cvs, dtype, vre, vim, conv, pts, mesh, out, outarg)
         desc = {'kind': kind, 'schemes': schemes, 'cvs': cvs, 'dtype': dtype, 'values': vre, 'imag': vim,
-                'layout': layout, 'conv': conv, 'points': pts, 'mesh': mesh, 'out_arg': use_out, 'branches': branches,
+                'layout': layout, 'out_layout': out_layout, 'near_uniform_eps_scale': near, 'conv': conv, 'points': pts, 'mesh': mesh, 'out_arg': use_out, 'branches': branches,
                 'impl': summ if isinstance(summ, str) else 'values'}
-        key = (kind, tuple(schemes), str(cvs), dtype, tuple(vre), tuple(vim), conv, str(pts), str(mesh), use_out, layout)
+        key = (kind, tuple(schemes), str(cvs), dtype, tuple(vre), tuple(vim), conv, str(pts), str(mesh), use_out, layout, out_layout)
         cs.add(term, desc, key if len(set(vre)) > 1 else None)
     return cs
 
@@ -449,8 +501,8 @@ def make_space(rng, d, dtype, uniform=None):
 
 
 MODES = ['element', 'mesh-out', 'array', 'array-out', 'points', 'element-F', 'element-C']
-SAMPLE_SRC = '''
-def sample(space, f, mode):
+SAMPLE_SRC = LAYOUT_SRC + '''
+def sample(space, f, mode, out_layout='C'):
     """The values of callable f on the grid of `space`, obtained through one entry point of the
     sampling machinery: space.element (out-of-place on the mesh) or the wrapper returned by
     sampling_function called on the mesh with out=, on the point array (d, N) with/without out=,
@@ -463,7 +515,7 @@ def sample(space, f, mode):
         return np.ascontiguousarray(space.element(f, order=mode[-1]).asarray())
     func = sampling_function(f, space.domain, out_dtype=space.dtype)
     if mode == 'mesh-out':
-        out = np.full(space.shape, np.nan, dtype=space.dtype)
+        out = alloc_out(space.shape, space.dtype, out_layout)
         r = point_collocation(func, space.meshgrid, out=out)
         assert r is out
         return out
@@ -471,14 +523,23 @@ def sample(space, f, mode):
     if mode == 'array':
         return np.asarray(func(pts.T)).reshape(space.shape)
     if mode == 'array-out':
-        out = np.full(len(pts), np.nan, dtype=space.dtype)
+        out = alloc_out((len(pts),), space.dtype, out_layout)
         func(pts.T, out=out)
-        return out.reshape(space.shape)
+        return np.array(out).reshape(space.shape)
     vals = [func(p[0] if space.ndim == 1 else p) for p in pts]
     assert all(isinstance(v, (float, complex)) for v in vals)
     return np.array(vals).reshape(space.shape).astype(space.dtype)
 '''
 exec(SAMPLE_SRC)
+
+
+def _finite_or_empty(arr):
+    """Non-finite outputs (e.g. an out= array that kept its NaN prefill) have no rational literal: report
+    them as a failing case (empty output list) instead of crashing the harness."""
+    a = np.asarray(arr)
+    if a.dtype.kind in 'fc' and not np.all(np.isfinite(a)):
+        return np.zeros(0, dtype=a.dtype), 'non-finite output (NaN prefill of out= survived?)'
+    return a, None
 
 
 def sampling_cases(rng, tier):
@@ -514,29 +575,33 @@ def sampling_cases(rng, tier):
         mode = MODES[(it // len(FLAVOURS)) % len(MODES)]
         if flavour == 'ufunc' and mode.endswith('-out'):
             mode = 'array'       # recorded finding sampling-1d-ufunc-inplace-valueerror, probed separately
+        out_layout = rng.choice(LAYOUTS) if mode.endswith('-out') else 'C'
         err = None
         with warnings.catch_warnings():
             warnings.simplefilter('ignore')
             try:
-                arr = sample(sp, env['f'], mode)
+                arr = sample(sp, env['f'], mode, out_layout)
             except Exception as e:      # an exception is a failing case (empty output), not a harness crash
                 arr, err = np.zeros(0, dtype=dtype), '%s: %s' % (type(e).__name__, str(e)[:200])
         cvs = [c.tolist() for c in sp.grid.coord_vectors]
+        arr, err2 = _finite_or_empty(arr)
+        err = err or err2
         flat = np.asarray(arr).ravel()
         term = ('{| s_cvs := %s; s_re := %s; s_im := %s; s_cplx := %s; s_out_re := %s; s_out_im := %s |}'
                 % (C.qss(cvs), ex_re.coq(), ex_im.coq(), C.b(cplx),
                    C.qs([float(v) for v in flat.real.tolist()]),
                    C.qs([float(v) for v in flat.imag.tolist()]) if cplx else '[]'))
-        desc = {'family': 'sampling', 'flavour': flavour, 'mode': mode, 'dtype': dtype, 'space': spsrc,
+        desc = {'family': 'sampling', 'flavour': flavour, 'mode': mode, 'out_layout': out_layout, 'dtype': dtype,
+                'space': spsrc,
                 'callable': src, 'shape': list(sp.shape), 'error': err, 'd': d,
                 'scalar_expr': ex_re.src(False, 'p') + ((' + 1j * (%s)' % ex_im.src(False, 'p')) if cplx else '')}
         nontriv = len(set(flat.tolist())) > 1
-        cs.add(term, desc, (flavour, mode, dtype, spsrc, src) if nontriv else None)
+        cs.add(term, desc, (flavour, mode, out_layout, dtype, spsrc, src) if nontriv else None)
     return cs
 
 
-TENSOR_SRC = '''
-def sample_tensor(space, fs, k, mode, inplace, shaped):
+TENSOR_SRC = LAYOUT_SRC + '''
+def sample_tensor(space, fs, k, mode, inplace, shaped, out_layout='C'):
     """Values of a vector-valued callable / a list of callables and constants on the grid of
     `space`, through sampling_function(..., out_dtype=(float, (k,))): result shape (k,) + grid."""
     import numpy as np
@@ -545,7 +610,7 @@ def sample_tensor(space, fs, k, mode, inplace, shaped):
     x = space.meshgrid if mode == 'mesh' else space.points().T
     shp = (k,) + (space.shape if mode == 'mesh' else (space.size,))
     if inplace:
-        out = np.full(shp, np.nan)
+        out = alloc_out(shp, float, out_layout)
         r = point_collocation(func, x, out=out)
         assert r is out
     else:
@@ -602,21 +667,23 @@ def tensor_sampling_cases(rng, tier):
         inplace = rng.random() < 0.5
         shaped = form == 'tuple' or rng.random() < 0.5
         src = tensor_src(rng, comps, form)
+        out_layout = rng.choice(LAYOUTS) if inplace else 'C'
         env = {}
         exec(src, env)
         err = None
         with warnings.catch_warnings():
             warnings.simplefilter('ignore')
             try:
-                arr = sample_tensor(sp, env['fs'], k, mode, inplace, shaped)
+                arr = sample_tensor(sp, env['fs'], k, mode, inplace, shaped, out_layout)
             except Exception as e:
                 arr, err = None, '%s: %s' % (type(e).__name__, str(e)[:200])
         cvs = [c.tolist() for c in sp.grid.coord_vectors]
         for j, e in enumerate(comps):
-            flat = np.zeros(0) if arr is None else np.asarray(arr[j]).ravel()
+            flat = np.zeros(0) if arr is None else _finite_or_empty(arr[j])[0].ravel()
             term = ('{| s_cvs := %s; s_re := %s; s_im := FConst 0; s_cplx := false; s_out_re := %s; s_out_im := [] |}'
                     % (C.qss(cvs), e.coq(), C.qs([float(v) for v in flat.tolist()])))
-            desc = {'family': 'tensor', 'form': form, 'mode': mode, 'inplace': inplace, 'shaped': shaped, 'k': k,
+            desc = {'family': 'tensor', 'form': form, 'mode': mode, 'inplace': inplace, 'out_layout': out_layout,
+                    'shaped': shaped, 'k': k,
                     'component': j, 'space': spsrc, 'callable': src, 'error': err,
                     'scalar_exprs': [c.src(False, 'p') for c in comps]}
             cs.add(term, desc, (form, mode, inplace, shaped, spsrc, src, j) if len(set(flat.tolist())) > 1 else None)
@@ -644,7 +711,7 @@ def int_src(ex, xname='x'):
     return re.sub(r'(?<![\w.])(-?\d+)\.0(?![\d])', r'\1', ex.src(False, xname))
 
 
-HISTORY_SRC = '''
+HISTORY_SRC = LAYOUT_SRC + '''
 def run_history(f, steps):
     """Evaluate ONE callable f through a sequence of calls; returns the list of results (flat complex lists).
     steps: ('point', coords) direct call of f at one point | ('sample', space, mode, kwargs) sampling on a space."""
@@ -663,7 +730,7 @@ def run_history(f, steps):
                 from odl.discr.discr_utils import sampling_function, point_collocation
                 func = sampling_function(f, space.domain, out_dtype=space.dtype)
                 if mode == 'mesh-out':
-                    a = np.full(space.shape, np.nan, dtype=space.dtype)
+                    a = alloc_out(space.shape, space.dtype, 'F' if len(res) % 2 else 'strided')
                     point_collocation(func, space.meshgrid, out=a, **kw)
                 else:
                     a = np.asarray(func(space.points().T, **kw)).reshape(space.shape)
@@ -752,6 +819,7 @@ def history_cases(rng, tier):
             except Exception as e:
                 results, err = [[] for _ in coq], '%s: %s' % (type(e).__name__, str(e)[:200])
         for k, ((cvs, ex_re, ex_im, cplx), vals) in enumerate(zip(coq, results)):
+            vals = [] if any(v != v or abs(v) == float('inf') for v in vals) else vals
             term = ('{| s_cvs := %s; s_re := %s; s_im := %s; s_cplx := %s; s_out_re := %s; s_out_im := %s |}'
                     % (C.qss(cvs), ex_re.coq(), ex_im.coq(), C.b(cplx), C.qs([v.real for v in vals]),
                        C.qs([v.imag for v in vals]) if cplx else '[]'))
@@ -774,7 +842,7 @@ def _history_snippet(src, coq):
             'for u, v in zip(a, b)) for a, b in zip(observed, expected))\n')
 
 
-def resample_cases(rng, tier, variants):
+def resample_cases(rng, tier):
     """Resampling(domain, range, interp)(domain.element(callable)) and linear_deform."""
     import odl
     cs = C.CaseSet('resample', ['C15.Syntax', 'C15.Model', 'C15.Call', 'C15.Corr'], 'rcheck', 'rcase')
@@ -792,7 +860,7 @@ def resample_cases(rng, tier, variants):
                 m //= 2
             return m
         # range shapes whose nodes are dyadic (odd part of m divides n), so that every float operation is exact
-        shape2 = [rng.choice([m for m in range(2 if (k == 0 and variants[1] and d > 1) else 1, 2 * maxn + 3)
+        shape2 = [rng.choice([m for m in range(1, 2 * maxn + 3)
                               if shape[k] % oddpart(m) == 0]) for k in range(d)]
         lo = [rng.randint(-4, 4) * 0.5 for _ in range(d)]
         side = [rng.choice([0.5, 1.0, 2.0]) for _ in range(d)]
@@ -812,11 +880,9 @@ def resample_cases(rng, tier, variants):
             x = dom.element(env['f'], order=order)
             op = odl.Resampling(dom, ran, interp)
             if use_out:
-                y = ran.element(np.full(shape2, np.nan))
-                try:
-                    op(x, out=y)
-                except ValueError:
-                    pass    # recorded finding resampling-out-argument-valueerror (probed separately); y is compared
+                y = ran.element(np.full(shape2, np.nan), order=rng.choice([None, 'C', 'F']) if d > 1 else None)
+                r_ = op(x, out=y)
+                assert r_ is y
             else:
                 y = op(x)
         except Exception:           # an exception is a failing case (empty output), not a harness crash
@@ -825,7 +891,7 @@ def resample_cases(rng, tier, variants):
         mesh = [c.tolist() for c in ran.grid.coord_vectors]
         term = ('{| r_cvs := %s; r_f := %s; r_ss := %s; r_mesh := %s; r_out := %s |}'
                 % (C.qss(cvs), ex.coq(), C.lst([SCH[s] for s in schemes]), C.qss(mesh),
-                   C.qs(np.asarray(y).ravel().tolist())))
+                   C.qs(_finite_or_empty(np.asarray(y))[0].ravel().tolist())))
         cs.add(term, {'op': 'Resampling', 'domain': [lo, hi, shape], 'range_shape': shape2, 'interp': interp,
                       'callable': ex.src(True), 'out_arg': use_out, 'schemes': schemes, 'family': 'resample',
                       'order': order},
@@ -840,15 +906,15 @@ def resample_cases(rng, tier, variants):
         use_out2 = rng.random() < 0.3
         try:
             if use_out2:
-                o = np.full(int(np.prod(shape)), np.nan)
+                o = alloc_out((int(np.prod(shape)),), float, rng.choice(['C', 'strided', 'negstride']))
                 r = linear_deform(templ, dfield, interp=interp, out=o)
             else:
                 r = linear_deform(templ, dfield, interp=interp)
         except Exception:
             r = np.zeros(0)
         pts = (dom.points() + np.stack([dk.ravel() for dk in disp], axis=1)).tolist()
-        out = 'OVals %s []' % C.qs(np.asarray(r).ravel().tolist())
-        term2 = case_term('per_axis', schemes, cvs, 'float64', vals, [], 'array', pts, [], variants, out)
+        out = 'OVals %s []' % C.qs(_finite_or_empty(np.asarray(r))[0].ravel().tolist())
+        term2 = case_term('per_axis', schemes, cvs, 'float64', vals, [], 'array', pts, [], out)
         cs2.add(term2, {'op': 'linear_deform', 'domain': [lo, hi, shape], 'interp': interp, 'values': vals,
                         'out_arg': use_out2, 'kind': 'per_axis', 'schemes': schemes, 'cvs': cvs, 'dtype': 'float64',
                         'imag': [], 'conv': 'array', 'points': pts, 'mesh': [], 'via_deform': True, 'order': order,
@@ -857,10 +923,39 @@ def resample_cases(rng, tier, variants):
     return [cs, cs2]
 
 
+def shape_cases(rng, tier):
+    """Calling conventions by SHAPE: every factory called with np.zeros(shape) (all points at the first node)
+    on a d-dimensional grid -> result shape, scalar, or ValueError.  Exhaustive over small shapes."""
+    from odl.discr.discr_utils import nearest_interpolator, linear_interpolator, per_axis_interpolator
+    cs = C.CaseSet('shapes', ['C15.Syntax', 'C15.Model', 'C15.Call', 'C15.Corr'], 'hcheck', 'hcase')
+    sizes = [0, 1, 2, 3, 4] if tier == 'quick' else [0, 1, 2, 3, 4, 5, 7]
+    for d in (1, 2, 3):
+        shapes = [()] + [(a,) for a in sizes] + [(a, b) for a in sizes for b in sizes]
+        shapes += [(a, b, c) for a in (1, 2, 3) for b in (1, 2) for c in (1, 2)]
+        cv = [np.array([0.0, 1.0, 2.0])] * d
+        f = np.arange(3.0 ** d).reshape((3,) * d)
+        for k, shape in enumerate(shapes):
+            mk = [lambda: nearest_interpolator(f, cv), lambda: linear_interpolator(f, cv),
+                  lambda: per_axis_interpolator(f, cv, ['nearest', 'linear', 'nearest'][:d])][(k + d) % 3]
+            with warnings.catch_warnings():
+                warnings.simplefilter('ignore')
+                try:
+                    r = mk()(np.zeros(shape))
+                    out = '(Some %s%%nat)' % C.nats(np.shape(r))
+                    if np.shape(r) == () and isinstance(r, np.ndarray):
+                        out = 'None'          # a 0-d array instead of a scalar would be a protocol error
+                except ValueError:
+                    out = 'None'
+                except Exception as e:       # any other error class: make the case fail
+                    out = '(Some [99; 99]%nat)'
+            cs.add('{| h_d := %d; h_shape := %s%%nat; h_out := %s |}' % (d, C.nats(shape), out),
+                   {'family': 'shapes', 'd': d, 'shape': list(shape), 'impl': out}, ('shape', d, shape))
+    return cs
+
+
 def correspondence(rng, tier):
-    variants = measure_variants()
-    return ([interp_cases(rng, tier, variants), sampling_cases(rng, tier), tensor_sampling_cases(rng, tier),
-             history_cases(rng, tier)] + resample_cases(rng, tier, variants))
+    return ([interp_cases(rng, tier), sampling_cases(rng, tier), tensor_sampling_cases(rng, tier),
+             history_cases(rng, tier), shape_cases(rng, tier)] + resample_cases(rng, tier))
 
 
 # ------------------------------------------------------------------- probes
@@ -993,29 +1088,40 @@ def probes(rng, tier):
                 dtype = rng.choice(['float64', 'float64', 'float32', 'complex128'])
                 shape = _probe_shape(rng, d)
                 layout = 'C' if d == 1 else rng.choice(LAYOUTS[1:] + ['C'])
-                cvs = [gen_cvec(rng, n) for n in shape]
+                near = rng.choice(NEAR_KINDS) if (dtype != 'float32' and rng.random() < 0.4) else None
+                if near:
+                    cvs = [gen_cvec_near(rng, n, *near) for n in shape]
+                    coord = lambda c: gen_coord_near(rng, c, near[0])[0]
+                else:
+                    cvs = [gen_cvec(rng, n) for n in shape]
+                    coord = lambda c: gen_coord(rng, c)[0]
                 schemes = [rng.choice(['nearest', 'linear']) for _ in range(d)]
                 eff = {'nearest': ['nearest'] * d, 'linear': ['linear'] * d, 'per_axis': schemes}[kind]
-                pts = [[gen_coord(rng, c)[0] for c in cvs] for _ in range(npts)]
-                mesh = [sorted(set(gen_coord(rng, c)[0] for _ in range(rng.randint(2, 3)))) for c in cvs]
+                pts = [[coord(c) for c in cvs] for _ in range(npts)]
+                mesh = [sorted(set(coord(c) for _ in range(rng.randint(2, 3)))) for c in cvs]
                 if len(mesh[0]) == 1 and d > 1:
-                    mesh[0].append(mesh[0][0] + 0.125)
+                    mesh[0].append(mesh[0][0] + 0.125 * (cvs[0][1] - cvs[0][0]))
                 snip = REF + LAYOUT_SRC + (
                     'cvs = %r\nf = relayout(%s, %r)\nschemes = %r\nitp = make(%r, schemes, f, cvs)\npts = %r\nmesh = %r\n'
-                    % (cvs, _rand_values(rng, shape, dtype), layout, eff, kind, pts, mesh))
+                    'OUT_LAYOUT = %r\n'
+                    % (cvs, _rand_values(rng, shape, dtype), layout, eff, kind, pts, mesh, rng.choice(LAYOUTS)))
                 snip += ('expected = [ref_interp(schemes, cvs, f, p) for p in pts]\n'
                          'a = call(itp, "array", pts, %d); b = call(itp, "single", pts, %d)\n'
                          'mp = list(itertools.product(*mesh))\n'
                          'm = [complex(v) for v in np.asarray(itp(sparse_meshgrid(*[np.array(x) for x in mesh]))).ravel()]\n'
-                         'o = np.full(len(pts), np.nan, dtype=f.dtype); r = itp(np.array(pts).T, out=o)\n'
+                         'o = alloc_out((len(pts),), f.dtype, "strided"); r = itp(np.array(pts).T, out=o)\n'
+                         'mo = alloc_out(tuple(len(x) for x in mesh), f.dtype, OUT_LAYOUT)\n'
+                         'mr = itp(sparse_meshgrid(*[np.array(x) for x in mesh]), out=mo)\n'
                          'observed = a\n'
                          'ok = (close(a, expected, 1e-12) and a == b and r is o and [complex(v) for v in o] == a\n'
                          '      and close(m, [ref_interp(schemes, cvs, f, p) for p in mp], 1e-12)\n'
-                         '      and m == call(itp, "array", mp, %d))\n' % (d, d, d))
+                         '      and m == call(itp, "array", mp, %d) and mr is mo and [complex(v) for v in mo.ravel()] == m)\n'
+                         % (d, d, d))
                 _probe(out, 'textbook-%s-d%d' % (kind if kind != 'per_axis' else 'peraxis', d),
                        '%s %s (%s, %d-d, %s memory layout): closest node (right on ties) / multilinear blend / one-cell '
-                       'decay outside, identical for single points, point arrays, mesh grids and out='
-                       % (kind, eff, dtype, d, layout), snip)
+                       'decay outside, identical for single points, point arrays, mesh grids and out=%s'
+                       % (kind, eff, dtype, d, layout,
+                          '; almost-uniform / rescaled nodes (eps, scale) = %r' % (near,) if near else ''), snip)
 
     # ---- 3. linear interpolation is exact for affine functions inside the hull
     for _ in range(3 * reps):
@@ -1064,15 +1170,16 @@ def probes(rng, tier):
         # expected values from a plain Python loop over the grid points with the scalar form of the expression
         scalar = ex_re.src(False, 'p') + ((' + 1j * (%s)' % ex_im.src(False, 'p')) if cplx else '')
         mode = MODES[(it // len(FLAVOURS)) % len(MODES)] if it >= len(FLAVOURS) else 'element'
+        out_layout = rng.choice(LAYOUTS[1:]) if mode.endswith('-out') else 'C'
         snip = ('import numpy as np, odl, warnings\nwarnings.simplefilter("ignore")\n' + SAMPLE_SRC + spsrc + src +
-                'got = sample(space, f, %r)\n' % mode +
+                'got = sample(space, f, %r, %r)\n' % (mode, out_layout) +
                 'expected = np.array([%s for p in space.points()]).reshape(space.shape).astype(space.dtype)\n'
                 'observed = got\nok = got.shape == space.shape and got.dtype == space.dtype and bool(np.all(got == expected))\n'
                 % scalar)
         _probe(out, 'sampling-1d-ufunc-inplace-valueerror' if (flavour == 'ufunc' and mode.endswith('-out'))
                else 'sampling-%s-%s-%s' % (flavour, dtype, mode),
-               'sampling a %s callable (%s, %d-d) via %s gives the callable\'s values at the grid points'
-               % (flavour, dtype, d, mode), snip)
+               'sampling a %s callable (%s, %d-d) via %s (out layout %s) gives the callable\'s values at the grid '
+               'points' % (flavour, dtype, d, mode, out_layout), snip)
 
     # ---- 5. operators built on the interpolators (elements in C and Fortran memory order)
     for _ in range(2 * reps):
@@ -1186,6 +1293,30 @@ def probes(rng, tier):
     _probe(out, 'vectorize-int-first-result-truncates',
            'space.element of a vectorize-wrapped callable whose first grid value is a Python int', snip)
 
+    # ---- 6e. calling conventions by input shape against the documented table
+    for d in (1, 2, 3):
+        snip = REF + (
+            'd = %d\ncv = [np.array([0.0, 1.0, 2.0])] * d\nf = np.arange(3.0 ** d).reshape((3,) * d)\n'
+            'def table(shape):\n'
+            '    # documented: d = 1: () scalar, (n,) and (1, n) arrays; d > 1: (d,) scalar, (d, n) array; else ValueError\n'
+            '    if d == 1:\n'
+            '        return () if shape == () else ((shape[-1],) if len(shape) == 1 or (len(shape) == 2 and shape[0] == 1) else None)\n'
+            '    if shape == (d,): return ()\n'
+            '    return (shape[1],) if len(shape) == 2 and shape[0] == d else None\n'
+            'def observed_shape(itp, shape):\n'
+            '    try:\n        r = itp(np.zeros(shape))\n    except ValueError:\n        return None\n'
+            '    return np.shape(r)\n'
+            'sizes = [0, 1, 2, 3, 4]\n'
+            'shapes = [()] + [(a,) for a in sizes] + [(a, b) for a in sizes for b in sizes] + [(d, 2, 2), (1, 1, 1)]\n'
+            'bad = [(name, sh, observed_shape(itp, sh), table(sh)) for name, itp in\n'
+            '       (("nearest", nearest_interpolator(f, cv)), ("linear", linear_interpolator(f, cv)),\n'
+            '        ("per_axis", per_axis_interpolator(f, cv, ["linear", "nearest", "linear"][:d])))\n'
+            '       for sh in shapes if observed_shape(itp, sh) != table(sh)]\n'
+            'observed = bad; expected = []\nok = not bad\n' % d)
+        _probe(out, 'conventions-by-shape-d%d' % d,
+               'interpolators on a %d-d grid accept exactly the documented input shapes and return a scalar / one value '
+               'per point' % d, snip)
+
     # ---- 7. vector-valued callables through sampling_function (shaped out_dtype)
     for form, body in (('tuple-mixed', '(x[0] + 0.0 * x[1], 2.0, x[0] * x[1])'),
                        ('tuple-equal-partial', '(x[1], 2.0 * x[1], x[1] + 1.0)')):
@@ -1204,7 +1335,7 @@ def probes(rng, tier):
 
 def _sampling_snippet(desc):
     return ('import numpy as np, odl, warnings\nwarnings.simplefilter("ignore")\n' + SAMPLE_SRC + desc['space']
-            + desc['callable'] + 'got = sample(space, f, %r)\n' % desc['mode'] +
+            + desc['callable'] + 'got = sample(space, f, %r, %r)\n' % (desc['mode'], desc.get('out_layout', 'C')) +
             'expected = np.array([%s for p in space.points()]).reshape(space.shape).astype(space.dtype)\n'
             'observed = got\nok = got.shape == space.shape and got.dtype == space.dtype and '
             'bool(np.all(got == expected))\n' % desc['scalar_expr'])
@@ -1305,14 +1436,19 @@ LEVEL_TEXT = ('Proof (partial: callable wrapping is validated, not proved). Over
               'overshoots; the documented one-cell linear decay outside the hull; linearity in the values (complex); '
               'mesh-grid evaluation = point-wise evaluation in C order; collocation gives the function at the nodes, '
               'sampling then interpolating returns the function at nodes (affine: everywhere in the hull); resampling '
-              'onto the same grid is the identity. Three full statements are proved FALSE of the faithful model '
-              '(single-node linear axis -> nan; mesh grid with one point on the first axis rejected; per-axis nearest on '
-              'integers raises) and recorded as findings with the provable restriction.')
-LEVEL_NOTE = ('Tie: translator (fail-closed) for the table-like helpers + in-Coq correspondence (1400 quick / 11000 '
-              'thorough cases at Q, tolerance 0 on dyadic inputs) for searchsorted/indexing/corner loop/conventions/'
-              'error classes, sampling entry points, Resampling and linear_deform. Trusted: the translator, NumPy '
+              'onto the same grid is the identity; the code equals the complete textbook reference at every real '
+              'point; the input-shape conventions equal the documented table for every shape. One full statement is '
+              'proved FALSE of the faithful model (single-node linear axis -> nan, open finding); two defects of the '
+              'pinned snapshot (mesh grid with one point on the first axis rejected; per-axis nearest on integers '
+              'raises) were repaired in /repo: the positive statements are live theorems about the current code, the '
+              'refutations remain as statements about the explicit old variant.')
+LEVEL_NOTE = ('Tie: translator (fail-closed) for the table-like helpers, the factory dispatch, the out checks and the '
+              'input-shape conventions + in-Coq correspondence (1700 quick / 13000 thorough cases at Q, tolerance 0 on '
+              'dyadic inputs) for searchsorted/indexing/corner loop/conventions/error classes, sampling entry points, '
+              'call histories, memory layouts, Resampling and linear_deform. The run at Q is PROVED to be the rational '
+              'restriction of the model at R (C15/Transfer.v, no side condition). Trusted: the translator, NumPy '
               'searchsorted/fancy indexing/broadcasting semantics as modelled, exact arithmetic (rounding, e.g. complex '
-              'division by reciprocal near ties, out of scope), Q/R instance coincidence. Axioms: classical reals + '
-              'funext as printed by Print Assumptions.')
+              'division by reciprocal near ties, out of scope). Axioms: classical reals + funext as printed by Print '
+              'Assumptions.')
 TECHNIQUE = ('Coq proofs by induction on the axis list and on node lists (real-closed-field arithmetic per axis) over '
              'source-regenerated weight rules + in-Coq differential correspondence')
